@@ -174,4 +174,32 @@ structure GoodRen (ρ : Comp → Comp) : Prop where
   inj : ∀ c d, ρ c = ρ d → c = d
   wf : ∀ c, compWF c = true → compWF (ρ c) = true
 
+
+/-! ### directory trees and import statements -/
+
+/-- the root directory itself, as an entry -/
+def rootEntry : Entry := { rel := [], isDir := true }
+
+/-- a directory tree: entries have distinct non-empty relative paths and every entry's parent directory is listed -/
+def TreeWF (entries : List Entry) : Prop :=
+  (entries.map (·.rel)).Nodup ∧ (∀ e ∈ entries, e.rel ≠ []) ∧
+  (∀ e ∈ entries, 2 ≤ e.rel.length → ∃ d ∈ entries, d.isDir = true ∧ d.rel = e.rel.dropLast)
+
+/-- an entry contributes a module: it lies at or below `mp`, is a directory or a .py file, and no path from `mp`
+    down to the entry itself is excluded -/
+def Survives (excl : Str → Bool) (base : Str) (mp : List Str) (e : Entry) : Prop :=
+  mp <+: e.rel ∧
+  (e.isDir = true ∨ ∃ name, e.rel.getLast? = some name ∧ isPyFile name = true) ∧
+  ∀ k, mp.length ≤ k → k ≤ e.rel.length → excl (pathStr base (e.rel.take k)) = false
+
+/-- specification statement ↦ model statement -/
+def toStmt : SStmt → ImportStmt
+  | .imp names => .imp (names.map render)
+  | .impFrom m names level => .impFrom (m.map render) names level
+
+/-- names occurring in a statement are well-formed -/
+def stmtWF : SStmt → Bool
+  | .imp names => names.all nameWF
+  | .impFrom m names _ => (match m with | some p => nameWF p | none => true) && names.all compWF
+
 end Pta
